@@ -115,10 +115,11 @@ Proof.
   rewrite Hs; [reflexivity|]. cbn [length] in HF. rewrite app_length in HF. cbn [length] in HF. lia.
 Qed.
 
-Lemma lexes_ls ascii rf x s ts : ls_ok ascii rf x -> lexes s ts ->
-  lexes (render_ls ascii rf x ++ s) (TS (ls_units rf x) :: ts).
+Lemma lexes_ls ascii rf rq x s ts : (forall k i, rq k i = 34 :: rf k i ++ [34]) ->
+  ls_ok ascii rf x -> lexes s ts ->
+  lexes (render_ls ascii rq x ++ s) (TS (ls_units rf x) :: ts).
 Proof.
-  intros Hx Hs. destruct x as [q|q|k i]; cbn [render_ls ls_units ls_ok] in *.
+  intros Hrq Hx Hs. destruct x as [q|q|k i]; cbn [render_ls ls_units ls_ok] in *; try rewrite Hrq.
   - unfold quote_for_json. cbn [app]. rewrite <- app_assoc. cbn [app].
     apply lexes_quoted; [|exact Hs]. intros F rest HF. destruct Hx as [Hb Hv].
     apply quote_roundtrip_gen; try assumption. lia.
@@ -223,9 +224,9 @@ Fixpoint lsize (t : lj) : nat :=
   | _ => 1%nat
   end.
 
-Definition lex_ok ascii rf (t : lj) : Prop :=
+Definition lex_ok ascii rf rq (t : lj) : Prop :=
   forall rest ts, lexes rest ts -> delim rest ->
-    lexes (render ascii rf t ++ rest) (toks (erase rf t) ++ ts).
+    lexes (render ascii rq t ++ rest) (toks (erase rf t) ++ ts).
 
 Lemma delim_ws_then w c rest : all_ws w = true -> is_punct c = true -> delim (w ++ c :: rest).
 Proof.
@@ -233,9 +234,10 @@ Proof.
   cbn [all_ws forallb] in Hw. apply andb_true_iff in Hw as [Hx _]. left; exact Hx.
 Qed.
 
-Lemma lex_render_all ascii rf : forall n t, (lsize t <= n)%nat -> lj_ok ascii rf t -> lex_ok ascii rf t.
+Lemma lex_render_all ascii rf rq : (forall k i, rq k i = 34 :: rf k i ++ [34]) ->
+  forall n t, (lsize t <= n)%nat -> lj_ok ascii rf t -> lex_ok ascii rf rq t.
 Proof.
-  induction n as [|n IH]; intros t Hsz Hok; [destruct t; cbn in Hsz; lia|].
+  intro Hrq. induction n as [|n IH]; intros t Hsz Hok; [destruct t; cbn in Hsz; lia|].
   destruct t as [ms cw|es cw|x|k|].
   - (* object *)
     cbn [lj_ok] in Hok. destruct Hok as [Hcw Hms].
@@ -253,18 +255,18 @@ Proof.
     destruct Hms as [Hm Hr']. destruct m as [[[w1 k] w2] v].
     destruct Hm as (H1 & H2 & Hk & Hv).
     cbn [map list_sum fold_right] in Hsz.
-    assert (Pv : lex_ok ascii rf v) by (apply IH; [lia|exact Hv]).
+    assert (Pv : lex_ok ascii rf rq v) by (apply IH; [lia|exact Hv]).
     destruct r as [|m2 r2].
     + cbn [map commas sep_toks fst snd]. rewrite <- !app_assoc. cbn [app]. rewrite <- !app_assoc.
-      apply lexes_ws; [exact H1|]. apply lexes_ls; [exact Hk|].
+      apply lexes_ws; [exact H1|]. apply (lexes_ls ascii rf rq); [exact Hrq|exact Hk|].
       apply lexes_punct; [reflexivity|]. apply lexes_ws; [exact H2|].
       apply Pv; assumption.
     + change (commas (map ?f ((w1, k, w2, v) :: m2 :: r2))) with
-        ((w1 ++ render_ls ascii rf k ++ 58 :: w2 ++ render ascii rf v) ++ 44 :: commas (map f (m2 :: r2))).
+        ((w1 ++ render_ls ascii rq k ++ 58 :: w2 ++ render ascii rq v) ++ 44 :: commas (map f (m2 :: r2))).
       change (sep_toks (map ?g (map ?h ((w1, k, w2, v) :: m2 :: r2)))) with
         ((TS (ls_units rf k) :: TP 58 :: toks (erase rf v)) ++ TP 44 :: sep_toks (map g (map h (m2 :: r2)))).
       rewrite <- !app_assoc. cbn [app]. rewrite <- !app_assoc.
-      apply lexes_ws; [exact H1|]. apply lexes_ls; [exact Hk|].
+      apply lexes_ws; [exact H1|]. apply (lexes_ls ascii rf rq); [exact Hrq|exact Hk|].
       apply lexes_punct; [reflexivity|]. apply lexes_ws; [exact H2|].
       apply Pv; [|right; reflexivity].
       cbn [app]. apply lexes_punct; [reflexivity|].
@@ -284,12 +286,12 @@ Proof.
     induction es as [|e r IHes]; intros tts tail Tail Dt; [exact Tail|].
     destruct Hes as [He Hr']. destruct e as [w1 v]. cbn [fst snd] in He. destruct He as (H1 & Hv).
     cbn [map list_sum fold_right snd] in Hsz.
-    assert (Pv : lex_ok ascii rf v) by (apply IH; [lia|exact Hv]).
+    assert (Pv : lex_ok ascii rf rq v) by (apply IH; [lia|exact Hv]).
     destruct r as [|e2 r2].
     + cbn [map commas sep_toks fst snd]. rewrite <- !app_assoc.
       apply lexes_ws; [exact H1|]. apply Pv; assumption.
     + change (commas (map ?f ((w1, v) :: e2 :: r2))) with
-        ((w1 ++ render ascii rf v) ++ 44 :: commas (map f (e2 :: r2))).
+        ((w1 ++ render ascii rq v) ++ 44 :: commas (map f (e2 :: r2))).
       change (sep_toks (map toks (map ?h ((w1, v) :: e2 :: r2)))) with
         (toks (erase rf v) ++ TP 44 :: sep_toks (map toks (map h (e2 :: r2)))).
       rewrite <- !app_assoc.
@@ -297,7 +299,7 @@ Proof.
       apply Pv; [|right; reflexivity].
       cbn [app]. apply lexes_punct; [reflexivity|].
       apply IHes; [lia|exact Hr'|exact Tail|exact Dt].
-  - intros rest ts Hr Hd. cbn [render erase toks app]. apply lexes_ls; [exact Hok|exact Hr].
+  - intros rest ts Hr Hd. cbn [render erase toks app]. apply (lexes_ls ascii rf rq); [exact Hrq|exact Hok|exact Hr].
   - intros rest ts Hr Hd. cbn [render erase toks app]. apply lexes_num; [exact Hok|exact Hd|exact Hr].
   - intros rest ts Hr Hd. cbn [render erase toks app]. apply lexes_true. exact Hr.
 Qed.
@@ -440,13 +442,14 @@ Proof.
 Qed.
 
 (* the whole text: tree, then whitespace *)
-Lemma parse_render_all ascii rf t trailer :
+Lemma parse_render_all ascii rf rq t trailer :
+  (forall k i, rq k i = 34 :: rf k i ++ [34]) ->
   lj_ok ascii rf t -> all_ws trailer = true ->
-  parse_json (render ascii rf t ++ trailer) = Some (erase rf t).
+  parse_json (render ascii rq t ++ trailer) = Some (erase rf t).
 Proof.
-  intros Hok Hw. unfold parse_json.
-  assert (L : lexes (render ascii rf t ++ trailer) (toks (erase rf t) ++ [])).
-  { apply (lex_render_all ascii rf (lsize t) t (le_n _) Hok).
+  intros Hrq Hok Hw. unfold parse_json.
+  assert (L : lexes (render ascii rq t ++ trailer) (toks (erase rf t) ++ [])).
+  { apply (lex_render_all ascii rf rq Hrq (lsize t) t (le_n _) Hok).
     - rewrite <- (app_nil_r trailer). apply lexes_ws; [exact Hw|apply lexes_nil].
     - destruct trailer as [|c w]; [exact I|]. cbn [all_ws forallb] in Hw.
       apply andb_true_iff in Hw as [Hc _]. left. exact Hc. }
